@@ -698,3 +698,108 @@ Proof.
     + split; [discriminate | auto].
     + rewrite <- IH. split; [intros [E|H]; [congruence | exact H] | auto].
 Qed.
+
+(* ---------- several membership changes between two lookups ---------- *)
+(* closer h a b: a would be chosen before b as the successor point of the hash h *)
+Definition closer (h : Z) (a b : Z * name) : bool :=
+  (gt h a && negb (gt h b)) || (Bool.eqb (gt h a) (gt h b) && (fst a <? fst b)).
+
+Lemma closer_asym h a b : closer h a b = true -> closer h b a = true -> False.
+Proof.
+  unfold closer, gt. destruct (h <? fst a), (h <? fst b); cbn; rewrite ?andb_false_r, ?orb_false_r, ?orb_false_l;
+    try discriminate; intros H1 H2; apply Z.ltb_lt in H1; apply Z.ltb_lt in H2; lia.
+Qed.
+
+Lemma closer_irrefl h a : closer h a a = false.
+Proof.
+  unfold closer. destruct (gt h a); cbn; rewrite Z.ltb_irrefl; reflexivity.
+Qed.
+
+(* the successor entry is closer than every other entry *)
+Lemma succ_entry_min h c e : sorted_c c -> succ_entry h c = Some e ->
+  forall e', In e' c -> e' = e \/ closer h e e' = true.
+Proof.
+  intros Hs. unfold succ_entry. destruct (find (gt h) c) as [e0|] eqn:F.
+  - intros E; inversion E; subst e0. clear E.
+    induction Hs as [|x c Hs IH Hall]; [discriminate|]. cbn in F.
+    destruct (gt h x) eqn:G.
+    + inversion F; subst x. intros e' [<-|Hin]; [left; reflexivity|]. right.
+      rewrite Forall_forall in Hall. specialize (Hall _ Hin).
+      unfold closer. rewrite G. unfold gt in *. apply Z.ltb_lt in G.
+      replace (h <? fst e') with true by (symmetry; apply Z.ltb_lt; lia). cbn.
+      apply Z.ltb_lt. exact Hall.
+    + intros e' [<-|Hin]; [|apply IH; assumption]. right.
+      apply find_some in F as [_ Ge]. unfold closer. rewrite Ge, G. reflexivity.
+  - destruct c as [|x c]; [discriminate|]. cbn [hd_error]. intros E; inversion E; subst x. clear E.
+    intros e' [<-|Hin]; [left; reflexivity|]. right.
+    inversion Hs as [|? ? Hs' Hall]; subst. rewrite Forall_forall in Hall. specialize (Hall _ Hin).
+    assert (G1 : gt h e = false) by (apply (find_none _ _ F); left; reflexivity).
+    assert (G2 : gt h e' = false) by (apply (find_none _ _ F); right; exact Hin).
+    unfold closer. rewrite G1, G2. cbn. apply Z.ltb_lt. exact Hall.
+Qed.
+
+Section Composite.
+  Variable hash : list Z -> Z.
+
+  Definition added_in (ops : list op) (n : name) : Prop := In (Add n) ops.
+  Definition removed_in (ops : list op) (n : name) : Prop := In (Remove n) ops.
+
+  (* relative to the successor entry e0 of h before the run: either its owner has been removed,
+     or it is still there and everything closer belongs to a member added during the run *)
+  Definition cinv (h : Z) (e0 : Z * name) (A R : name -> Prop) (s : ring) : Prop :=
+    R (snd e0) \/
+    (In e0 (circle s) /\ forall e, In e (circle s) -> closer h e e0 = true -> A (snd e)).
+
+  Lemma cinv_step h e0 (A R : name -> Prop) s o :
+    cinv h e0 A R s ->
+    cinv h e0 (fun n => A n \/ o = Add n) (fun n => R n \/ o = Remove n) (step hash s o).
+  Proof.
+    intros [Hr|[Hin Hc]]; [left; left; exact Hr|].
+    destruct o as [x|x]; cbn [step].
+    - right. unfold add_node. destruct (mem_name x (nodes s)); [split; [exact Hin | intros e He Hcl; left; apply (Hc e He Hcl)]|].
+      cbv zeta. cbn [circle]. split; [apply fold_add_mono; exact Hin|].
+      intros e He Hcl. apply (fold_add_in hash) in He as [He|[He _]]; [left; apply (Hc e He Hcl) | right; rewrite He; reflexivity].
+    - destruct (list_eq_dec Z.eq_dec (snd e0) x) as [E|E]; [left; right; rewrite E; reflexivity|].
+      right. unfold remove_node. cbv zeta. cbn [circle]. split.
+      + apply fold_del_keep; [exact Hin | exact E].
+      + intros e He Hcl. apply (fold_del_in hash) in He as [He _]. left. apply (Hc e He Hcl).
+  Qed.
+
+  Lemma cinv_run h e0 ops : forall (A R : name -> Prop) s,
+    cinv h e0 A R s ->
+    cinv h e0 (fun n => A n \/ added_in ops n) (fun n => R n \/ removed_in ops n) (fold_left (step hash) ops s).
+  Proof.
+    induction ops as [|o ops IH]; intros A R s H; cbn [fold_left].
+    - destruct H as [H|[H1 H2]]; [left; left; exact H | right; split; [exact H1 | intros e He Hc; left; apply (H2 e He Hc)]].
+    - specialize (IH _ _ _ (cinv_step h e0 A R s o H)).
+      destruct IH as [Hr|[Hin Hc]].
+      + left. destruct Hr as [[Hr|Hr]|Hr]; [left; exact Hr | right; left; exact Hr | right; right; exact Hr].
+      + right. split; [exact Hin|]. intros e He Hcl. destruct (Hc e He Hcl) as [[Ha|Ha]|Ha];
+          [left; exact Ha | right; left; exact Ha | right; right; exact Ha].
+  Qed.
+
+  (* a key stays with its member, or goes to a member added in between, or its member was
+     removed in between *)
+  Lemma composite_moves s ops key old new : inv hash s ->
+    get_node_by hash key s = Some old ->
+    get_node_by hash key (fold_left (step hash) ops s) = Some new ->
+    new = old \/ In (Add new) ops \/ In (Remove old) ops.
+  Proof.
+    intros Hi Hold Hnew. pose proof (inv_run_from hash ops s Hi) as Hi'.
+    destruct Hi as [Hs [Hc _]]. destruct Hi' as [Hs' [Hc' _]].
+    unfold get_node_by in *. rewrite get_node_at_spec in Hold, Hnew by assumption.
+    unfold owner in *.
+    destruct (succ_entry (hash key) (circle s)) as [e0|] eqn:E0; [|discriminate].
+    destruct (succ_entry (hash key) (circle (fold_left (step hash) ops s))) as [e1|] eqn:E1; [|discriminate].
+    cbn in Hold, Hnew. inversion Hold; inversion Hnew; subst old new. clear Hold Hnew.
+    assert (H0 : cinv (hash key) e0 (fun _ => False) (fun _ => False) s).
+    { right. split; [apply (succ_entry_in _ _ _ E0)|]. intros e He Hcl.
+      destruct (succ_entry_min _ _ _ Hs E0 e He) as [->|Hcl'].
+      - rewrite closer_irrefl in Hcl. discriminate.
+      - exact (closer_asym _ _ _ Hcl Hcl'). }
+    apply (cinv_run _ _ ops) in H0. destruct H0 as [[[]|Hr]|[Hin Hcl]].
+    - right. right. exact Hr.
+    - destruct (succ_entry_min _ _ _ Hs' E1 e0 Hin) as [->|Hcl1]; [left; reflexivity|].
+      destruct (Hcl e1 (succ_entry_in _ _ _ E1) Hcl1) as [[]|Ha]. right. left. exact Ha.
+  Qed.
+End Composite.
